@@ -579,6 +579,23 @@ func (e *nodeEnv) execSweep(n int) {
 	}
 }
 
+// sendTx submits through the real client API but does not wait for ever: the mempool pipeline was seen to leave a
+// submission unanswered (queue WaitTimeout(-1) never returns); such a submission is recorded and skipped.
+func sendTx(nd *testnode.Chain33Mock, tx *types.Transaction) (*types.Reply, error) {
+	type res struct {
+		rep *types.Reply
+		err error
+	}
+	ch := make(chan res, 1)
+	go func() { rep, err := nd.GetAPI().SendTx(tx); ch <- res{rep, err} }()
+	select {
+	case r := <-ch:
+		return r.rep, r.err
+	case <-time.After(60 * time.Second):
+		return nil, fmt.Errorf("verif-no-reply")
+	}
+}
+
 func poolRes(rep *types.Reply, err error) (string, string) {
 	if err == nil && rep != nil && rep.IsOk {
 		return "accepted", ""
@@ -608,6 +625,7 @@ func early(msg string) bool {
 func (e *nodeEnv) poolSweep(n int) {
 	w := e.w
 	nProxied, maxProxied := 0, gen.Scale(4, 40)
+	noReply := 0
 	for i := 0; i < n; i++ {
 		if i%20 == 0 {
 			w.configure(false)
@@ -683,15 +701,24 @@ func (e *nodeEnv) poolSweep(n int) {
 			poolA, poolB = e.mockC, e.mockC
 		}
 		e.withEmpty(func() {
-			base, bmsg = poolRes(poolB.GetAPI().SendTx(send))
+			base, bmsg = poolRes(sendTx(poolB, send))
 			if kind == 2 && base == "accepted" {
 				_ = poolB.GetAPI().RemoveTxsByHashList(&types.TxHashList{Hashes: [][]byte{send.Hash()}})
 			}
 		})
 		tMid := time.Now()
-		got, gmsg := poolRes(poolA.GetAPI().SendTx(send))
+		got, gmsg := poolRes(sendTx(poolA, send))
 		if os.Getenv("VERIF_DEBUG") != "" {
 			fmt.Fprintf(os.Stderr, "kind %d base %s %v got %s %v\n", kind, base, tMid.Sub(tSend), got, time.Since(tMid))
+		}
+		if strings.Contains(bmsg, "verif-no-reply") || strings.Contains(gmsg, "verif-no-reply") {
+			out.Stat("pool_submission_never_answered", 1)
+			out.Note(fmt.Sprintf("mempool did not answer EventTx within 60s: kind=%d where=%s base=%q got=%q", kind, where, bmsg, gmsg))
+			noReply++
+			if noReply >= 2 {
+				return
+			}
+			continue
 		}
 		reach := 1
 		if base == "other" && early(bmsg) && !strings.Contains(bmsg, "ErrInvalidAddress") {
